@@ -211,8 +211,8 @@ CLAIMED = {
             'operator%, ceil, floor): every signed add/sub/negate/divide and narrowing is discharged by LLVM -O2 or justified with guards that must be present; the word '
             'paths exclude the INT_MIN operand pair whose quotient does not fit. Plus the direction of every rounding step: constant folding of div / mod (mkIntDiv, mkMod, helpers '
             'inlined) and the tightening of bounds on integer variables (getBoundsValueForIntVar) are evaluated over a finite rounding-direction domain (exact quotient q, '
-            'floor(q)+k; q an integer or not) for every divisor sign / strictness case and must give floor / ceil as SMT-LIB and integer semantics prescribe. The div/mod '
-            'elimination axioms and gcd normalisation are not decided.',
+            'floor(q)+k; q an integer or not) for every divisor sign / strictness case and must give floor / ceil as SMT-LIB and integer semantics prescribe; the div/mod '
+            'elimination axioms emitted by DivModConfig::rewrite are compared as symbolic terms with t = c*q + m, 0 <= m <= |c| - 1. Gcd normalisation is not decided.',
             'static analysis: compiler-discharged sanitizer obligations read from LLVM IR + frozen justified residual table + abstract evaluation over a rounding-direction domain', 'clang 14.0.6 -O2 as the discharging analysis'),
     'C05': ('other',
             'Static: where the code forks on an option the forks are exhaustive (createTheory over Logic_t) and sibling branches agree on the mandatory steps (per-partition vs '
